@@ -29,6 +29,7 @@ fn one(u: &mut Unstructured<'_>) -> TransferCase {
         in_progress_at: if u.int_in_range(0..=7u8).unwrap_or(1) == 0 { Some(u.int_in_range(0..=2usize).unwrap_or(0)) } else { None },
         // relation to the previous operation of a sequence (the sequence decoder below copies the page list)
         relation: u.int_in_range(0..=7u8).unwrap_or(0).saturating_sub(4),
+        slow_call: None,
     }
 }
 
